@@ -34,6 +34,13 @@ structure MappedSliceR where
 /-- the bytes a `MappedBytes` / `MappedStr` payload denotes: the first `len` bytes of its elements -/
 def payloadBytes (p : Nat × List Word) : List UInt8 := (toBytes p.2).take p.1
 
+/-- `MappedOption { data, offset, data_len }` (the zero-sized marker dropped) -/
+structure MappedOptionR where
+  data : Option MappedSliceR
+  offset : Nat
+  dataLen : Nat
+  deriving DecidableEq, Repr, Inhabited
+
 structure RawMapperR where
   len : Nat
   data : MappedSliceR
